@@ -48,3 +48,67 @@ Example C06_h265_example :
   | None => ([], [], [])
   end = ([65534; 65535; 0; 1; 2], [false; true; false; true; true], [5; 4; 2; 2; 3]).
 Proof. vm_compute. reflexivity. Qed.
+
+(* ---- the translated kernels (tools/go2coq, regenerated from the Go source on every run) ----
+   The integer formulas of rtph265/encoder.go - lenAggregationUnit (every statement of its loop), the aggregation test
+   lenAggregationUnit(batch, nalu) <= PayloadMaxSize, the single/FU decision len(nalu) < PayloadMaxSize, the FU budget
+   PayloadMaxSize - 3, the fragment count packetCount(avail, len(nalu)-2), the size 3+le of a fragment packet, the FU
+   header bytes data[0] and data[2], the last-fragment test and the marker expression, the three e.sequenceNumber++,
+   and of writeAggregationUnit the len(nalu) < 2 test, the layerID / temporalID of a NALU and the two "lowest so far"
+   comparisons, the two size bytes and the two header bytes - ARE the formulas of Model.batches / write_batch /
+   fu_protos / fu_hdr0 / fu_hdr2 / number / ap_ids / ap_body / ap: len_agg, <=?, <?, max - 3,
+   nlen (chunks (max-3) rest), i+1 = count, seq_next, the N.lor / N.land / N.shiftl expressions. *)
+From Coq Require Import ZArith.
+From GVL Require Import Chunks.
+From GVG Require Import Kern.
+From GV_h265 Require Import BridgeLib Bridge.
+Open Scope Z_scope.
+
+Theorem C06_h265_kernels_are_the_code :
+  forall (max : N) (batch : list bytes) (n : bytes) (b0 b1 : N) (rest : bytes) (i pc s : N)
+    (m st en : bool) (lid tid : N),
+  (4 <= max)%N -> Z.of_N max < i64max -> Z.of_N (len_agg batch + 2 + nlen n) < i64max ->
+  Z.of_N (nlen (b0 :: b1 :: rest)) + 3 < i64max -> (1 <= pc)%N -> Z.of_N pc < i64max ->
+  byte b0 -> byte b1 -> byte lid -> byte tid ->
+  la_code batch None = Z.of_N (len_agg batch) /\
+  k_h265_agg_fits (la_code batch (Some n)) (Z.of_N max) = (len_agg batch + 2 + nlen n <=? max)%N /\
+  k_h265_one_nalu (Z.of_N (nlen batch)) = (nlen batch =? 1)%N /\
+  k_h265_single_fits (Z.of_N (nlen n)) (Z.of_N max) = (nlen n <? max)%N /\
+  k_h265_fu_avail (Z.of_N max) = Z.of_N (max - 3) /\
+  k_h265_packetCount (k_h265_fu_avail (Z.of_N max)) (k_h265_fu_le (Z.of_N (nlen (b0 :: b1 :: rest))))
+    = Some (Z.of_N (nlen (chunks (max - 3) rest))) /\
+  k_h265_fu_size (Z.of_N (nlen rest)) = Z.of_N (nlen (fu_hdr0 b0 :: b1 :: fu_hdr2 st en b0 :: rest)) /\
+  k_h265_fu_hdr0 (Z.of_N b0) = Z.of_N (fu_hdr0 b0) /\
+  k_h265_fu_hdr2 (bit st) (bit en) (Z.of_N b0) = Z.of_N (fu_hdr2 st en b0) /\
+  k_h265_fu_last (Z.of_N i) (Z.of_N pc) = (i + 1 =? pc)%N /\
+  k_h265_fu_marker (Z.of_N i) (Z.of_N pc) m = ((i + 1 =? pc)%N && m) /\
+  k_h265_seq_single (Z.of_N s) = Z.of_N (seq_next s) /\ k_h265_seq_fu (Z.of_N s) = Z.of_N (seq_next s) /\
+  k_h265_seq_ap (Z.of_N s) = Z.of_N (seq_next s) /\
+  k_h265_ap_short (Z.of_N (nlen n)) = match n with _ :: _ :: _ => false | _ => true end /\
+  k_h265_ap_lid (Z.of_N b0) (Z.of_N b1) = Z.of_N (N.lor (N.shiftl (N.land b0 1) 5) (N.land (N.shiftr b1 3) 31)) /\
+  k_h265_ap_tid (Z.of_N b1) = Z.of_N (N.land b1 7) /\
+  k_h265_ap_lid_lt (Z.of_N (N.lor (N.shiftl (N.land b0 1) 5) (N.land (N.shiftr b1 3) 31))) (Z.of_N lid)
+    = (N.lor (N.shiftl (N.land b0 1) 5) (N.land (N.shiftr b1 3) 31) <? lid)%N /\
+  k_h265_ap_tid_lt (Z.of_N (N.land b1 7)) (Z.of_N tid) = (N.land b1 7 <? tid)%N /\
+  k_h265_ap_size_hi (Z.of_N (nlen rest)) = Z.of_N ((nlen rest / 256) mod 256) /\
+  k_h265_ap_size_lo (Z.of_N (nlen rest)) = Z.of_N (nlen rest mod 256) /\
+  k_h265_ap_hdr0 (Z.of_N lid) = Z.of_N (N.lor 96 (N.land lid 32)) /\
+  k_h265_ap_hdr1 (Z.of_N lid) (Z.of_N tid) = Z.of_N (N.lor (N.shiftl (N.land lid 31) 3) (N.land tid 7)).
+Proof. exact enc_kernels_are_the_code. Qed.
+Print Assumptions C06_h265_kernels_are_the_code.
+
+(* the translated kernels compute, on the boundaries: a 1450-byte limit leaves 1447 bytes per FU; an aggregate of
+   exactly 1450 bytes fits, 1451 does not; a NALU of 1450 bytes is fragmented, 1449 is sent alone; 65535++ = 0;
+   lenAggregationUnit([3 bytes], 1 byte) = 2 + 2+3 + 2+1; 2 + 2894 bytes are 2 fragments, one more byte makes 3;
+   the FU header of a NALU of type 19 (b0 = 38): 98, start -> 128+19, end -> 64+19 *)
+Example C06_h265_example_kernels :
+  k_h265_fu_avail 1450 = 1447 /\ k_h265_agg_fits 1450 1450 = true /\ k_h265_agg_fits 1451 1450 = false /\
+  k_h265_single_fits 1450 1450 = false /\ k_h265_single_fits 1449 1450 = true /\ k_h265_seq_fu 65535 = 0 /\
+  k_h265_fu_marker 2 3 true = true /\ k_h265_fu_marker 1 3 true = false /\
+  la_code [[1; 2; 3]%N] (Some [4%N]) = 10 /\
+  k_h265_packetCount (k_h265_fu_avail 1450) (k_h265_fu_le 2896) = Some 2 /\
+  k_h265_packetCount (k_h265_fu_avail 1450) (k_h265_fu_le 2897) = Some 3 /\
+  k_h265_fu_size 1447 = 1450 /\ k_h265_fu_hdr0 38 = 98 /\ k_h265_fu_hdr2 1 0 38 = 147 /\ k_h265_fu_hdr2 0 1 38 = 83 /\
+  k_h265_ap_lid 1 8 = 33 /\ k_h265_ap_tid 9 = 1 /\ k_h265_ap_size_hi 258 = 1 /\ k_h265_ap_size_lo 258 = 2 /\
+  k_h265_ap_hdr0 33 = 96 /\ k_h265_ap_hdr1 33 1 = 9 /\ k_h265_ap_short 1 = true /\ k_h265_ap_short 2 = false.
+Proof. vm_compute. repeat split. Qed.
